@@ -56,9 +56,9 @@ def showCall (c : SubmitCall) : String :=
   let p := if c.isData then "d" else "h"
   s!"{String.intercalate "+" (c.heights.map fun h => p ++ toString h)}:{showAns c.ans}:{c.daHeight}:{c.accepted}"
 
-def showRhb (a : ANode) : String :=
-  let l := (List.range a.daInc).map fun i =>
-    s!"{i+1}:{metaNat a.n.store (rhbKey (i+1) "h")}:{metaNat a.n.store (rhbKey (i+1) "d")}"
+def showRhb (ih : Nat) (a : ANode) : String :=
+  let l := (List.range' ih (a.daInc + 1 - ih)).map fun k =>
+    s!"{k}:{metaNat a.n.store (rhbKey k "h")}:{metaNat a.n.store (rhbKey k "d")}"
   if l.isEmpty then "-" else String.intercalate "," l
 
 def doStart (s : St) (disk : Store) (clean : Bool) (first : Bool) : St × String :=
@@ -105,7 +105,7 @@ def step (s : St) (line : String) : St × String :=
     let (a', ws) := includerIter s.a
     let fin := (a'.finals.take (a'.finals.length - n0)).reverse
     ({ s with a := a', before := before, ws := ws },
-      s!"incl finals={natList fin} {showState a'} w={Drv.Prod.showWs ws} rhb={showRhb a'}")
+      s!"incl finals={natList fin} {showState a'} w={Drv.Prod.showWs ws} rhb={showRhb (max 1 s.cfg.initialHeight) a'}")
   | "restart" => doStart s s.a.n.store true false
   | "crash" => doStart s (s.before.applyPrefix (o.nat "keep") s.ws) false false
   | _ => (s, "bad-op")
